@@ -59,3 +59,42 @@ pub fn c04(kind: &str, req: &Value) -> Result<Value, String> {
         _ => Err(format!("unknown c04 op {kind}")),
     }
 }
+
+
+/// parse an identifier through the public API and call its component accessors
+pub fn c10acc(req: &Value) -> Result<Value, String> {
+    use ruma_common::{EventId, RoomAliasId, ServerName, UserId};
+    let s = crate::arg_str(req, "s")?;
+    let ty = req.get("type").and_then(|x| x.as_str()).unwrap_or("");
+    Ok(match ty {
+        "ServerName" => match <&ServerName>::try_from(s.as_str()) {
+            Err(e) => json!({"r": "err", "e": format!("{e:?}")}),
+            Ok(n) => {
+                let host = n.host();
+                let port = n.port();
+                let ip = n.is_ip_literal();
+                let rest = &s[host.len().min(s.len())..];
+                let recomposed = match port { Some(_) => format!("{host}{rest}"), None => host.to_owned() };
+                let port_text_ok = match port { Some(p) => rest.strip_prefix(':').and_then(|t| t.parse::<u16>().ok()) == Some(p), None => rest.is_empty() };
+                json!({"r": "ok", "host": host, "port": port, "is_ip_literal": ip, "stored": n.as_str(),
+                       "recomposed": if port_text_ok { recomposed } else { format!("{host}<port mismatch:{port:?}>") }})
+            }
+        },
+        "UserId" => match <&UserId>::try_from(s.as_str()) {
+            Err(e) => json!({"r": "err", "e": format!("{e:?}")}),
+            Ok(u) => json!({"r": "ok", "localpart": u.localpart(), "server_name": u.server_name().as_str(), "stored": u.as_str(),
+                            "recomposed": format!("@{}:{}", u.localpart(), u.server_name())}),
+        },
+        "RoomAliasId" => match <&RoomAliasId>::try_from(s.as_str()) {
+            Err(e) => json!({"r": "err", "e": format!("{e:?}")}),
+            Ok(u) => json!({"r": "ok", "alias": u.alias(), "server_name": u.server_name().as_str(), "stored": u.as_str(),
+                            "recomposed": format!("#{}:{}", u.alias(), u.server_name())}),
+        },
+        "EventId" => match <&EventId>::try_from(s.as_str()) {
+            Err(e) => json!({"r": "err", "e": format!("{e:?}")}),
+            Ok(u) => json!({"r": "ok", "localpart": u.localpart(), "server_name": u.server_name().map(|x| x.as_str().to_owned()), "stored": u.as_str(),
+                            "recomposed": match u.server_name() { Some(sn) => format!("${}:{}", u.localpart(), sn), None => format!("${}", u.localpart()) }}),
+        },
+        _ => return Err(format!("unknown identifier type {ty}")),
+    })
+}
